@@ -10,19 +10,19 @@ Record pm_params := {
   pm_shift : N;          (* bits kept before shifting: 25 / 35 *)
   pm_mask  : N;          (* 2^pm_shift - 1 as written in the source *)
   pm_sym   : N;          (* symbol width: 5 *)
-  pm_gens  : list N      (* xor constants for bits 0..4 of the symbol shifted out *)
+  pm_gens  : list (N * N)   (* (mask, xor constant): `if c0 & mask > 0 { c ^= constant }` *)
 }.
 
-Fixpoint feedback (gens : list N) (i : N) (c0 : N) (acc : N) : N :=
+Fixpoint feedback (gens : list (N * N)) (c0 : N) (acc : N) : N :=
   match gens with
   | [] => acc
-  | g :: t => feedback t (i + 1) c0 (if N.testbit c0 i then N.lxor acc g else acc)
+  | (m, g) :: t => feedback t c0 (if 0 <? N.land c0 m then N.lxor acc g else acc)
   end.
 
 Definition pm_step (p : pm_params) (c d : N) : N :=
-  let c0 := N.shiftr c (pm_shift p) in
+  let c0 := N.shiftr c (pm_shift p) mod 256 in    (* byte(c >> 35); bech32's b is < 32 anyway *)
   let c1 := N.lxor (N.shiftl (N.land c (pm_mask p)) (pm_sym p)) d in
-  feedback (pm_gens p) 0 c0 c1.
+  feedback (pm_gens p) c0 c1.
 
 Definition pm_fold (p : pm_params) (c : N) (ds : list N) : N := fold_left (pm_step p) ds c.
 
